@@ -176,7 +176,15 @@ func (s *backendStorageCommon) getBackendLocked(u *url.URL) *Backend {
 		if entry.url == "" {
 			// Old-style configuration, only hosts are configured.
 			return entry
-		} else if strings.HasPrefix(url, entry.url) {
+		}
+
+		entryUrl := entry.url
+		if entryUrl[len(entryUrl)-1] != '/' {
+			// Backends from etcd keep the url as given, urls of sibling
+			// paths ("/foo" vs. "/foobar") must not match them.
+			entryUrl += "/"
+		}
+		if strings.HasPrefix(url, entryUrl) {
 			return entry
 		}
 	}
